@@ -8,8 +8,9 @@ with exprs_ind' := Induction for exprs Sort Prop.
 Combined Scheme expr_mutind from expr_ind', exprs_ind'.
 
 Scheme stmt_ind' := Induction for stmt Sort Prop
-with stmts_ind' := Induction for stmts Sort Prop.
-Combined Scheme stmt_mutind from stmt_ind', stmts_ind'.
+with stmts_ind' := Induction for stmts Sort Prop
+with clauses_ind' := Induction for clauses Sort Prop.
+Combined Scheme stmt_mutind from stmt_ind', stmts_ind', clauses_ind'.
 
 Fixpoint xapp (a b : exprs) : exprs := match a with XNil => b | XCons e r => XCons e (xapp r b) end.
 Lemma xapp_nil a : xapp a XNil = a.
@@ -73,7 +74,17 @@ Proof.
   destruct (estep o stk); [apply IH|reflexivity].
 Qed.
 
-Definition add (f : frame) (l : stmts) : frame := mkF (fk f) (fcond f) (fthen f) (tapp (fbody f) l).
+Definition add (f : frame) (l : stmts) : frame := mkF (fk f) (fcond f) (fthen f) (tapp (fbody f) l) (fcl f) (fes f).
+Definition addc (f : frame) (l : clauses) : frame := mkF (fk f) (fcond f) (fthen f) (fbody f) (capp (fcl f) l) (fes f).
+
+Lemma capp_nil a : capp a CNil = a.
+Proof. induction a as [|es b r IH] using clauses_ind; cbn; [reflexivity|now rewrite IH]. Qed.
+Lemma capp_assoc a : forall b c, capp (capp a b) c = capp a (capp b c).
+Proof. induction a as [|es bd r IH] using clauses_ind; intros b c; cbn; [reflexivity|now rewrite IH]. Qed.
+Lemma addc_nil f : addc f CNil = f.
+Proof. unfold addc. rewrite capp_nil. now destruct f. Qed.
+Lemma addc_addc f a b : addc (addc f a) b = addc f (capp a b).
+Proof. unfold addc. cbn. now rewrite capp_assoc. Qed.
 
 Lemma tapp_nil a : tapp a TNil = a.
 Proof. induction a as [|s r IH] using stmts_ind; cbn; [reflexivity|now rewrite IH]. Qed.
@@ -90,10 +101,19 @@ Fixpoint wfs (s : stmt) : bool :=
   match s with
   | SIf _ t has_else e => wft t && (if has_else then wft e else match e with TNil => true | _ => false end)
   | SFor _ b | SBlock b => wft b
+  | SSwitch _ cs => wfc cs
   | _ => true
   end
 with wft (l : stmts) : bool :=
-  match l with TNil => true | TCons s r => wfs s && wft r end.
+  match l with TNil => true | TCons s r => wfs s && wft r end
+with wfc (l : clauses) : bool :=
+  match l with CNil => true | CCons _ b r => wft b && wfc r end.
+
+Lemma addc_addc_frame f es b r : fk f = KSwitch ->
+  addc (mkF KSwitch (fcond f) (fthen f) (fbody f) (capp (fcl f) (CCons es b CNil)) (fes f)) r = addc f (CCons es b r).
+Proof.
+  intros Hk. unfold addc. cbn [fk fcond fthen fbody fcl fes]. rewrite capp_assoc. cbn [capp]. now rewrite Hk.
+Qed.
 
 Lemma run_expr e ops stk fs :
   sexec (lift (ecompile e) ++ ops) (stk, fs) = sexec ops (e :: stk, fs).
@@ -103,7 +123,9 @@ Proof. rewrite sexec_app, sexec_lift, expression_rebuilt. reflexivity. Qed.
       (list) to the innermost open frame, leaving the operand stack and the outer frames as they were *)
 Lemma scompile_correct :
   (forall s ops stk f fs, wfs s = true -> sexec (scompile s ++ ops) (stk, f :: fs) = sexec ops (stk, add f (TCons s TNil) :: fs)) /\
-  (forall l ops stk f fs, wft l = true -> sexec (tcompile l ++ ops) (stk, f :: fs) = sexec ops (stk, add f l :: fs)).
+  (forall l ops stk f fs, wft l = true -> sexec (tcompile l ++ ops) (stk, f :: fs) = sexec ops (stk, add f l :: fs)) /\
+  (forall cs ops stk f fs, wfc cs = true -> fk f = KSwitch -> fcond f <> None ->
+     sexec (ccompile cs ++ ops) (stk, f :: fs) = sexec ops (stk, addc f cs :: fs)).
 Proof.
   apply stmt_mutind.
   - (* SAssign *) intros l r ops stk f fs _. cbn [scompile]. rewrite <- !app_assoc, run_expr, run_expr. reflexivity.
@@ -122,13 +144,32 @@ Proof.
     cbn [List.app sexec sstep add fk fcond fthen fbody tapp emit]. reflexivity.
   - (* SBlock *) intros b IHb ops stk f fs Hwf. cbn [wfs] in Hwf. cbn [scompile]. cbn [List.app sexec sstep]. rewrite <- app_assoc, IHb by exact Hwf.
     cbn [List.app sexec sstep add fk fcond fthen fbody tapp emit]. reflexivity.
+  - (* SSwitch *) intros tag cs IHc ops stk f fs Hwf. cbn [wfs] in Hwf. cbn [scompile]. cbn [List.app sexec sstep].
+    rewrite <- app_assoc, run_expr. cbn [List.app sexec sstep fk fcond].
+    rewrite <- app_assoc, IHc by (try exact Hwf; try reflexivity; cbn; discriminate).
+    cbn [List.app sexec sstep addc fk fcond fthen fbody fcl fes capp emit]. reflexivity.
   - (* TNil *) intros ops stk f fs _. cbn [tcompile List.app]. now rewrite add_nil.
   - (* TCons *) intros s IHs r IHr ops stk f fs Hwf. cbn [wft] in Hwf. apply andb_true_iff in Hwf as [H1 H2].
     cbn [tcompile]. rewrite <- app_assoc, IHs by exact H1. rewrite IHr by exact H2. rewrite add_add. reflexivity.
+  - (* CNil *) intros ops stk f fs _ _ _. cbn [ccompile List.app]. now rewrite addc_nil.
+  - (* CCons *) intros es b IHb r IHr ops stk f fs Hwf Hk Hc. cbn [wfc] in Hwf. apply andb_true_iff in Hwf as [Hb Hr].
+    destruct (fcond f) as [tag|] eqn:Ef; [|contradiction].
+    cbn [ccompile]. destruct es as [|e0 er].
+    + (* default *)
+      cbn [List.app sexec sstep]. rewrite Hk, Ef. rewrite <- app_assoc, IHb by exact Hb.
+      cbn [List.app sexec sstep add fk fcond fthen fbody fcl fes tapp]. rewrite Hk.
+      rewrite IHr; [|exact Hr|reflexivity|cbn; rewrite Ef; discriminate].
+      rewrite addc_addc_frame by exact Hk. reflexivity.
+    + cbn [List.app sexec sstep]. rewrite Hk, Ef. rewrite <- !app_assoc.
+      rewrite sexec_app, sexec_lift, (proj2 ecompile_correct). cbn [List.app sexec sstep fk fthen].
+      rewrite pop_pushed, xapp_nil. rewrite IHb by exact Hb.
+      cbn [List.app sexec sstep add fk fcond fthen fbody fcl fes tapp]. rewrite Hk.
+      rewrite IHr; [|exact Hr|reflexivity|cbn; rewrite Ef; discriminate].
+      rewrite addc_addc_frame by exact Hk. reflexivity.
 Qed.
 
 Theorem program_rebuilt l : wft l = true ->
-  sexec (tcompile l) ([], [mkF KTop None None TNil]) = Some ([], [mkF KTop None None l]).
+  sexec (tcompile l) ([], [mkF KTop None None TNil CNil XNil]) = Some ([], [mkF KTop None None l CNil XNil]).
 Proof.
-  intros H. rewrite <- (app_nil_r (tcompile l)). rewrite (proj2 scompile_correct) by exact H. reflexivity.
+  intros H. rewrite <- (app_nil_r (tcompile l)). rewrite (proj1 (proj2 scompile_correct)) by exact H. reflexivity.
 Qed.
